@@ -1638,6 +1638,11 @@ impl World {
                         self.count("op:add_members");
                         if *extra == 3 {
                             self.count("op:add_members:second-leaf-for-a-member:committed");
+                            // the invitation is for another device of that member, which no client
+                            // of the world plays: the member's existing client never answers it
+                            // (accepting an invitation into a group one is active in is C16's
+                            // subject and a listed finding there)
+                            self.welcomes.retain(|w| w.from_relay != Some(idx));
                         }
                         obs.after_call(self, m, "add_members")?;
                         self.after_commit_created(m, idx, *apply, obs)?;
